@@ -375,7 +375,7 @@ reg("C04", gen=lambda rng, n, tier: F.c04(rng, n, exhaustive_upto=(7 if tier == 
     theorems=["C04_segmentation_independence", "C04_any_segmentation_equals_single_read",
               "C04_side_condition_always_holds", "C04_stream_items_are_the_parsed_bounds"], assumptions=["a read returns at least one byte unless the input is exhausted"])
 
-reg("C05", gen=lambda rng, n, tier: F.c05(rng, n), budget=(3000, 30000), absolute=True,
+reg("C05", gen=lambda rng, n, tier: F.c05(rng, n) + F.c05_big(rng), budget=(3000, 30000), absolute=True,
     oracle=oracle_same("forward", "buffered", "the one-line-at-a-time reader and the whole-input reader disagree on equivalent requests"),
     rule="-l with forward and non-forward bounds lists, --no-join, -z, -m, fallbacks, empty lines, missing final EOL, "
          "invalid UTF-8; plus pairs of equivalent requests (ascending positive vs one index written negatively)",
